@@ -73,7 +73,7 @@ def _cases(draw, ctx):
     if present and draw(st.integers(0, 2)) > 0:
         x = draw(st.sampled_from(present))
         kind = draw(st.sampled_from(["other_track", "garbage", "invalid_forced_first", "empty",
-                                     "invalid_unsorted"]))
+                                     "invalid_unsorted", "reversed_copy", "reversed_copy"]))
         if kind == "other_track":
             src = draw(st.sampled_from(present))
             body = [S.track_line(it) for it in spec["tracks"][src]] + ["7 = N 3 0"]
@@ -85,6 +85,13 @@ def _cases(draw, ctx):
                                                   "}\t", "[EasySingle]", "[Events]", " {", "[Song]",
                                                   "0 = N 0 0", "5 = N 5 0"]),
                                  max_size=7))
+        elif kind == "reversed_copy":
+            # the lines of another section (or its own) in REVERSE order: the same ticks, the same strings;
+            # over a multi-tempo map this runs backwards across tempo changes and is refused, over a single
+            # tempo it is accepted -- either way for reasons that lie in this section alone
+            src = draw(st.sampled_from(present))
+            body = [S.track_line(it) for it in reversed(spec["tracks"][src])
+                    if not (it[1] == "N" and it[2] == 5)] or ["0 = N 0 0"]
         elif kind == "invalid_forced_first":
             body = ["5 = N 0 0", "5 = N 5 0", "9 = N 1 0"]
         elif kind == "invalid_unsorted":
@@ -234,7 +241,32 @@ def check_case(ctx: Ctx, case) -> None:
                 if obs_track(tr) != full_tracks[h]:
                     ctx.fail("track-interference", f"replacing section {x} ({rep['kind']}) changed "
                                                    f"track {h}", rc)
+        # what becomes of section x itself is decided by x (and the required sections) alone: with and
+        # without the other instrument sections in the file the outcome is the same
+        alone = S.render_sections([(n, b) for n, b in secs if n == x or n in S.REQUIRED])
+        outcomes = []
+        for t_, sel_ in ((text2, [x]), (alone, [x]), (text2, None), (alone, None)):
+            try:
+                ch = L.parse(t_, want_tracks=None if sel_ is None else [_pair(h) for h in sel_])
+                outcomes.append(("ok", obs_track(_track(ch, x))))
+            except Exception as e:  # noqa: BLE001
+                outcomes.append(("raises", None))
+        if outcomes[0] != outcomes[1]:
+            ctx.fail("section-outcome-depends-on-others",
+                     f"section {x} ({rep['kind']}), selected alone: {outcomes[0][0]} in the full file but "
+                     f"{outcomes[1][0]} in a file without the other instrument sections"
+                     + (f": {diff_paths(outcomes[1][1], outcomes[0][1])}" if outcomes[0][0] == outcomes[1][0] else ""),
+                     dict(rc, alone_text=alone))
+        elif outcomes[1][0] == "raises" and outcomes[2][0] == "ok":
+            ctx.fail("section-outcome-depends-on-others",
+                     f"section {x} ({rep['kind']}) is refused on its own but accepted by the unrestricted parse "
+                     f"of the full file", dict(rc, alone_text=alone))
+        elif outcomes[2][0] == "ok" and outcomes[2] != outcomes[3] and outcomes[3][0] == "ok":
+            ctx.fail("section-outcome-depends-on-others",
+                     f"section {x} ({rep['kind']}) parses differently next to the other sections: "
+                     f"{diff_paths(outcomes[3][1], outcomes[2][1])}", dict(rc, alone_text=alone))
         ctx.classes[f"replace_{rep['kind']}"] += 1
+        ctx.classes[f"replaced_section_alone_{outcomes[1][0]}"] += 1
         nontrivial = True
     ctx.note([text, case["selections"], rep], nontrivial=nontrivial,
              classes=[f"tracks_{min(len(present), 9)}"],
